@@ -98,37 +98,40 @@ def sketch(draw, loop_button=False):
 
 @st.composite
 def tape(draw, n):
+    """One integer is drawn; the (long) tapes are expanded from it with a private PRNG, so a case stays a pure function of the draws
+    without exhausting Hypothesis' entropy budget (30 tapes x 3 pins x 3(n+1) levels in the thorough tier)."""
+    import random
+
+    rnd = random.Random(draw(st.integers(0, 2**32 - 1)))
     levels = {}
-    n_passes = n
-    n = 3 * (n + 1)  # a pin shared by several Button objects is read once per button and pass
+    m = 3 * (n + 1)  # a pin shared by several Button objects is read once per button and pass
     for p in BTN_PINS:
-        style = draw(st.sampled_from(["random", "held", "bounce", "press_release", "start_pressed", "all_low"]))
+        style = rnd.choice(["random", "held", "bounce", "press_release", "start_pressed", "all_low"])
         if style == "random":
-            seq = draw(st.lists(st.integers(0, 1), min_size=n + 1, max_size=n + 1))
+            seq = [rnd.randint(0, 1) for _ in range(m + 1)]
         elif style == "held":
-            seq = [0] + [1] * n
+            seq = [0] + [1] * m
         elif style == "bounce":
-            seq = [(i % 2) for i in range(n + 1)]
+            seq = [(i % 2) for i in range(m + 1)]
         elif style == "press_release":
-            seq = [0, 1, 1, 0, 0, 1, 0, 1, 1, 1, 0, 1][: n + 1] + [0] * max(0, n - 11)
+            seq = [0, 1, 1, 0, 0, 1, 0, 1, 1, 1, 0, 1][: m + 1] + [0] * max(0, m - 11)
         elif style == "start_pressed":
-            seq = [1] + draw(st.lists(st.integers(0, 1), min_size=n, max_size=n))
+            seq = [1] + [rnd.randint(0, 1) for _ in range(m)]
         else:
-            seq = [0] * (n + 1)
+            seq = [0] * (m + 1)
         levels[p] = seq
-    n = n_passes
-    analog = {p: draw(st.lists(st.sampled_from([0, 1, 511, 512, 1022, 1023]) | st.integers(0, 1023), min_size=3 * n, max_size=3 * n)) for _, p in POT_PINS}
+    analog = {p: [rnd.choice([0, 1, 511, 512, 1022, 1023, rnd.randint(0, 1023), rnd.randint(0, 1023)]) for _ in range(3 * n)] for _, p in POT_PINS}
     pulse = {}
     for _, e in US_PINS:
         seq = []
         while len(seq) < 9 * n + 3:
-            if draw(st.integers(0, 2)) == 0:
-                seq += [0] * draw(st.integers(1, 5))
-            seq.append(draw(st.sampled_from([58, 583, 1166, 5830, 23323, 29999, 30000, 40000, 150])))
+            if rnd.randint(0, 2) == 0:
+                seq += [0] * rnd.randint(1, 5)
+            seq.append(rnd.choice([58, 583, 1166, 5830, 23323, 29999, 30000, 40000, 150]))
         pulse[e] = seq
-    jitter = draw(st.lists(st.sampled_from([0, 0, 1, 30, 59, 60, 200]), min_size=n, max_size=n))
+    jitter = [rnd.choice([0, 0, 1, 30, 59, 60, 200]) for _ in range(n)]
     # no start near the 32-bit millis() wrap: `unsigned long` is 64-bit on the host, so wrap arithmetic is not representative there
-    t0 = draw(st.sampled_from([0, 0, 5_000_000, 1_000, 59_000]))
+    t0 = rnd.choice([0, 0, 5_000_000, 1_000, 59_000])
     return {"digital": levels, "analog": analog, "pulse": pulse, "jitter": jitter, "t0_us": t0}
 
 
